@@ -1854,6 +1854,61 @@ def bounded_fallback(run, prog, fname, reason):
                     else:
                         why = str(res)[:80]
                     run.check(False, 'O6', f'{fname}.result', f'{fname} on every {kind} input of {n} bytes{" (byteorder=" + order + ")" if kw else ""}: {why}', where)
+    fallback_history(run, prog, fname, spec, where)
+
+
+def fallback_history(run, prog, fname, spec, where):
+    """O6h: a routine decided by O6 may keep its register in an object that outlives the call.  In ONE interpreter: a call on other data,
+    a call that fails half way (a byte value outside 0..255 in the input; for crc32c also a byte order the conversion refuses), then a
+    call on the symbolic bytes b0..: its result must be the definition's fold of exactly these bytes, from the initial value"""
+    from ..interp import Interp
+    from ..values import K, ListV, RaiseEx, Fail
+    from .. import gf2
+    run.rule('O6h', 'routines decided by O6: the result of a call does not depend on earlier calls, including calls that ended in an exception', 1)
+    order = 'big' if fname == 'crc16' else 'little'
+    befores = {'after a call on other bytes': [([gf2.SymBytes(40, 45, 'bytes')], {})],
+               'after a call that fails on a value outside 0..255': [([ListV([K(7), K(300), K(1)])], {})]}
+    if fname == 'crc32c':
+        befores['after a call refused for its byte order'] = [([gf2.SymBytes(40, 43, 'bytes')], {'byteorder': K('BIG')})]
+        befores['after two failing calls and a good one'] = [([gf2.SymBytes(40, 43, 'bytes')], {'byteorder': K('network')}), ([ListV([K(1), K(-1)])], {}),
+                                                             ([gf2.SymBytes(50, 52, 'bytes')], {'byteorder': K('big')})]
+    for name, calls in befores.items():
+        it = Interp(prog)
+        it.builtin_hook = gf2.builtin_hook(it)
+        it.ext_hook = gf2.ext_hook(it)
+        it.NO_CRC_SUMMARY, it.FAST_CRC = True, False
+        it.MAX_STEPS = 2_000_000
+        f = it.global_lookup(fname, 'crypto.crc')
+        outcomes = []
+        try:
+            for args, kw in calls:
+                try:
+                    it.call(f, list(args), dict(kw))
+                    outcomes.append('returned')
+                except RaiseEx as e:
+                    outcomes.append(f'raised {e.kind}')
+            n = 4
+            try:
+                res = it.call(f, [gf2.SymBytes(0, n, 'bytes')], {})
+            except RaiseEx as e:
+                res = f'raises {e}'
+        except Fail as e:
+            raise AnalysisError(f'{fname}: history "{name}" cannot be followed: {e}')
+        if isinstance(res, K) and isinstance(res.v, (bytes, bytearray)):
+            res = gf2.GFBytes(Vec.const(int.from_bytes(res.v, order)), len(res.v), order)
+        if not isinstance(res, (gf2.GFBytes, str, K)):
+            raise AnalysisError(f'{fname}: history "{name}": result outside the affine domain: {str(res)[:120]}')
+        want = gf2.spec_fold(spec, n)
+        ok = isinstance(res, gf2.GFBytes) and res.vec == want and res.nbytes == spec['nbytes'] and res.order == order
+        if ok:
+            why = f'earlier calls {outcomes}; the call on b0..b{8 * n - 1} gives the definition\'s fold of these bytes'
+        elif isinstance(res, gf2.GFBytes):
+            foreign = sorted({s_ for form in res.vec.bits.values() for s_ in form if isinstance(s_, str) and s_.startswith('b') and int(s_[1:]) >= 8 * n})[:4]
+            why = f'earlier calls {outcomes}; the result of the next call ' + (f'depends on input bits of an EARLIER call ({foreign})' if foreign else 'is not the fold of its own bytes from the initial value')
+        else:
+            why = f'earlier calls {outcomes}; the next call: {str(res)[:80]}'
+        run.check(ok, 'O6h', f'{fname}[{name}]' if not ok else f'{fname}: {name}', f'{fname} {name}: {why}', where)
+        run.evaluations += 1
 
 
 def check_binding(run, prog):
